@@ -264,6 +264,30 @@ def run(ctx):
         ctx.guard(check_case, {"vector": list(vec), "mods": mods, "asm_corr": (not same) and rng.random() < 0.2,
                                "lower": lower, "same_id": same, "rot": rot,
                                "vcase": rng.choice([None, None, "lower", "half"]), "warn_twice": rng.random() < 0.15})
+    # the same module object listed twice (and three times) in sets that do not clash otherwise: one object is one module
+    made = 0
+    want = ctx.budget(60, 2000)
+    for _ in range(want * 60):
+        if made >= want:
+            break
+        vec = rng.choice(VECTORS)
+        k = rng.randint(1, 4)
+        if rng.random() < 0.7:
+            ovs = [vec[0]] + [rng.choice(OVS) for _ in range(k - 1)] + [vec[1]]
+            mods = [[ovs[i], ovs[i + 1], i + 1] for i in range(k)]
+        else:
+            mods = [[rng.choice(OVS), rng.choice(OVS), i + 1] for i in range(k)]
+        if spec(vec[0], vec[1], [tuple(m) for m in mods])[0] not in ("ok", "missing"):
+            continue
+        again = rng.choice(mods)
+        mods += [list(again)] * rng.choice([1, 1, 2])
+        rng.shuffle(mods)
+        made += 1
+        same = rng.random() < 0.25
+        ctx.guard(check_case, {"vector": list(vec), "mods": mods, "asm_corr": (not same) and rng.random() < 0.2,
+                               "same_id": same, "share": rng.random() < 0.2,
+                               "vcase": rng.choice([None, None, "lower"])})
+    ctx.extra["cov_same_object_listed_again_in_clash_free_sets"] = made
     # one plasmid file loaded once and wrapped several times: distinct module objects around one record object
     for _ in range(ctx.budget(120, 3000)):
         vec = rng.choice(VECTORS)
